@@ -68,11 +68,19 @@ let handle (toks : string list) : string =
   | ["sendern"; sgs; t; tbl] ->
     (* types.Sender under each signer of the ';'-separated list in turn, on one transaction object *)
     let e = ecrec_of (parse_table tbl) in
+    let (outs, _) = sender_seq keccak256 e (parse_tx t) None (List.map parse_signer (String.split_on_char ';' sgs)) in
+    String.concat " | " (List.map str_res outs)
+  | ["withsig"; sga; sgb; t; sg; sgs; tbl] ->
+    (* the object is queried under sga (fills the cache), WithSignature(sgb, sg) makes a copy, the copy is
+       queried under each signer of sgs *)
+    let e = ecrec_of (parse_table tbl) in
     let t = parse_tx t in
-    let (_, outs) = List.fold_left (fun (c, acc) sg ->
-        let (r, c') = sender_cached keccak256 e (parse_signer sg) t c in (c', str_res r :: acc))
-        (None, []) (String.split_on_char ';' sgs) in
-    String.concat " | " (List.rev outs)
+    let (_, c) = sender_cached keccak256 e (parse_signer sga) t None in
+    (match with_signature_obj (parse_signer sgb) (t, c) (bytes_of_hex sg) with
+     | Ok (t', c') ->
+       let (outs, _) = sender_seq keccak256 e t' c' (List.map parse_signer (String.split_on_char ';' sgs)) in
+       "ok " ^ render_tx t' ^ " " ^ String.concat " | " (List.map str_res outs)
+     | Err _ -> "err" | Panic -> "panic")
   | ["sigvalues"; sg; s] ->
     (match signature_values (parse_signer sg) (bytes_of_hex s) with
      | Ok ((r, s), v) -> "ok " ^ hex_of_n r ^ " " ^ hex_of_n s ^ " " ^ hex_of_n v
